@@ -35,7 +35,12 @@ META = {
                   'body must equal the values TLC computes from the abstract request.',
     'level_note': 'Histories: all 144 (quick) / 1728 (thorough) behaviours of ServerIfaceHistory with 2 / 3 requests x 6 writer '
                   'sets are replayed; leg B runs its random requests in histories of 3. Plain responders combine text, data, media '
-                  '(unset / empty / non-empty) and stream with 5 statuses and an optional Content-Type. '
+                  '(unset / empty / non-empty) and stream with 5 statuses, an optional Content-Type and a script (direct / the '
+                  'application renders early and copies a body digest into a header / then mutates the media in place). The '
+                  'request digest reads every public property the two Request classes have in common (enumerated from the '
+                  'classes); header pools carry obs-text (lone Latin-1 byte, UTF-8 pair) in the fields behind the typed '
+                  'properties. 14 middleware stacks (2-3 components, dependent/independent, one completing the request early) '
+                  'are compared on the response only. '
                   'Bounded: exhaustive model check over 11 targets x 8 bodies x 8 endpoints x <= 1 pool header field, and 3 '
                   'targets x 4 bodies x 8 endpoints x <= 2 pool fields (16-field pool). Legs A/B sample (TLC -simulate / '
                   'seeded rng) requests with <= 3 resp. <= 9 extra header fields, targets <= ~50 bytes, bodies <= 48 bytes in '
@@ -62,7 +67,8 @@ ATTRS = ['method', 'path', 'query_string', 'params', 'cookies', 'content_type', 
          'forwarded_uri', 'forwarded_prefix', 'access_route', 'remote_addr', 'accept', 'auth', 'user_agent', 'referer',
          'expect', 'if_range', 'range', 'range_unit', 'subdomain', 'client_accepts_json', 'client_accepts_xml',
          'client_accepts_msgpack', 'uri_template', 'is_websocket', 'date', 'if_modified_since', 'if_unmodified_since']
-HEADER_PROBES = ['x-foo', 'Accept', 'HOST', 'content-type', 'Content-Length', 'cookie', 'X-Latin', 'x-absent']
+HEADER_PROBES = ['x-foo', 'Accept', 'HOST', 'content-type', 'Content-Length', 'cookie', 'X-Latin', 'x-absent',
+                 'Authorization', 'Referer', 'If-Range', 'Expect', 'User-Agent']
 PARAM_PROBES = ['a', 'b', 'c', 'q', 'x', 'absent']
 
 
@@ -101,9 +107,29 @@ def twice(f):
     return a if a == b else {'unstable': [a, b]}
 
 
+# read separately (different shapes / consume the body / not request data)
+NOT_ENUMERATED = {'app', 'bounded_stream', 'stream', 'media', 'env', 'scope', 'headers', 'headers_lower', 'forwarded',
+                  'if_match', 'if_none_match', 'context', 'options'}
+_ALL_ATTRS = []
+
+
+def all_attrs():
+    """ATTRS plus every public property the two Request classes have in common (enumerated from the classes,
+    so an accessor added later is read as well)."""
+    if not _ALL_ATTRS:
+        import falcon
+        import falcon.asgi
+
+        def props(c):
+            return {n for n in dir(c) if not n.startswith('_') and isinstance(getattr(c, n, None), property)}
+        common = (props(falcon.Request) & props(falcon.asgi.Request)) - NOT_ENUMERATED
+        _ALL_ATTRS.extend(ATTRS + sorted(common - set(ATTRS)))
+    return _ALL_ATTRS
+
+
 def attr_digest(req):
     d = {}
-    for a in ATTRS:
+    for a in all_attrs():
         d[a] = twice(lambda: getattr(req, a))
     d['headers'] = twice(lambda: {k.lower(): v for k, v in req.headers.items()})     # documented: casing differs
     d['headers_lower'] = twice(lambda: dict(req.headers_lower))
@@ -201,6 +227,8 @@ class Logic:
             if p['ctype']:
                 # resp.media is rendered by the handler of the response content type: keep it a JSON type
                 resp.content_type = 'application/json; v=1' if p['media'] != 'unset' else 'text/x-custom; v=1'
+            if p.get('script', 'direct') != 'direct':
+                return p['script']          # the resource renders early (sync / awaited) and calls after_render()
         elif k in ('echo', 'media'):
             resp.media = {'path': req.path, 'method': req.method, 'q': req.query_string}
             resp.set_header('X-Seen', 'yes')
@@ -236,6 +264,16 @@ class Logic:
             raise AssertionError(k)
 
 
+def after_render(resp, data, script):
+    """the application rendered the body itself: it copies a digest of the bytes into a header (an ETag computed from
+    the body) and, for "early-mutate", then changes the media object in place"""
+    resp.set_header('X-Body-Digest', 'none' if data is None else '%d-%s' % (len(data), hashlib.sha1(bytes(data)).hexdigest()[:12]))
+    if script == 'early-mutate':
+        m = resp.media
+        if isinstance(m, dict):
+            m['late'] = [1, 2, 3]
+
+
 class WsgiRes:
     def __init__(self, logic, where):
         self.logic, self.where = logic, where
@@ -253,7 +291,9 @@ class WsgiRes:
                         return b''.join(out)
                     out.append(c)
             body = guarded(readall)
-        self.logic.respond(req, resp, body, media, self.where, params, lambda chunks: iter(chunks))
+        script = self.logic.respond(req, resp, body, media, self.where, params, lambda chunks: iter(chunks))
+        if script:
+            after_render(resp, resp.render_body(), script)
 
     on_get = on_post = on_put = on_delete = on_patch = on_head = on_options = _go
 
@@ -292,7 +332,9 @@ class AsgiRes:
                 for c in chunks:
                     yield c
             return gen()
-        self.logic.respond(req, resp, body, media, self.where, params, make_stream)
+        script = self.logic.respond(req, resp, body, media, self.where, params, make_stream)
+        if script:
+            after_render(resp, await resp.render_body(), script)
 
     on_get = on_post = on_put = on_delete = on_patch = on_head = on_options = _go
 
@@ -632,10 +674,10 @@ LIST_FIELDS = [('Accept', ['application/json', 'text/html;q=0.5', '*/*;q=0.1', '
                ('Cache-Control', ['no-cache', 'max-age=0']), ('Via', ['1.1 a', '1.0 b'])]
 SINGLE_FIELDS = [('Content-Type', ['application/json', 'text/plain; charset=utf-8', 'application/x-www-form-urlencoded', '']),
                  ('Cookie', ['a=1; b=2', 'a=1; a=2', 'a="q\\"x"; b', 'sid=abc=def', '']),
-                 ('Referer', ['/from', 'http://x.example/a?b']), ('Expect', ['100-continue']),
-                 ('Authorization', ['Basic Zm9vOmJhcg==', 'Bearer x.y.z']),
+                 ('Referer', ['/from', 'http://x.example/a?b', '/fr\xe9', '/caf\xc3\xa9']), ('Expect', ['100-continue', '100-continu\xe9']),
+                 ('Authorization', ['Basic Zm9vOmJhcg==', 'Bearer x.y.z', 'Bearer caf\xc3\xa9', 'Basic \xe9']),
                  ('Range', ['bytes=0-4', 'bytes=-5', 'bytes=5-', 'bytes=abc', 'items=0-4', 'bytes=0-1,3-4']),
-                 ('If-Range', ['"x"', 'Wed, 21 Oct 2015 07:28:00 GMT']),
+                 ('If-Range', ['"x"', 'Wed, 21 Oct 2015 07:28:00 GMT', '"\xe9t\xc3\xa9"']),
                  ('Date', ['Wed, 21 Oct 2015 07:28:00 GMT', 'yesterday']),
                  ('If-Modified-Since', ['Wed, 21 Oct 2015 07:28:00 GMT', 'nonsense']),
                  ('If-Unmodified-Since', ['Thu, 01 Jan 1970 00:00:00 GMT']),
@@ -669,7 +711,7 @@ def random_request(rng):
         query = b''
     headers = []
     if rng.random() < 0.92:
-        headers.append([recase(rng, 'User-Agent'), rng.choice(['ua', 'Mozilla/5.0 (X11)', 'curl/8'])])
+        headers.append([recase(rng, 'User-Agent'), rng.choice(['ua', 'Mozilla/5.0 (X11)', 'curl/8', 'ag\xe9nt', 'ag\xc3\xa9nt'])])
     for _ in range(rng.randint(0, 4)):
         n, vs = rng.choice(LIST_FIELDS)
         headers.append([recase(rng, n), rng.choice(vs)])
@@ -848,6 +890,7 @@ def run(ctx):
     ctx.traces_validated += len(hists)
     ctx.extra['leg_H'] = {'histories': len(hists), 'requests': nsteps, 'driver_runs': 4 * nsteps,
                           'wrong_design_switch': 'SharedFallback=TRUE violates ViewIndependentOfHistory'}
+    ctx.extra['leg_H']['middleware_stacks'] = middleware_stacks(ctx)
     ctx.progress('leg H done: %d histories, %d requests x 4 drivers' % (len(hists), nsteps))
 
     # ---- leg B: random richer requests in histories of 3 on one application object per driver, judged by TLC ------
@@ -863,13 +906,15 @@ def run(ctx):
         writes = rng.choice([(), (), ('params',), ('context', 'resp_context'), ('params', 'cookies', 'headers'), ('extras',),
                              CONTAINERS])
         kind = rng.choice(KINDS)
-        plain = {'status': 200, 'text': 'unset', 'data': 'unset', 'media': 'unset', 'stream': False, 'ctype': False}
+        plain = {'status': 200, 'text': 'unset', 'data': 'unset', 'media': 'unset', 'stream': False, 'ctype': False,
+                 'script': 'direct'}
         if rng.random() < 0.5:
             kind = 'plain'
             tri = ['unset', 'unset', 'empty', 'set']
             plain = {'status': rng.choice([200, 200, 201, 204, 304, 101, 100, 205, 404]), 'text': rng.choice(tri),
                      'data': rng.choice(tri), 'media': rng.choice(tri), 'stream': rng.random() < 0.3,
                      'ctype': rng.random() < 0.4}
+            plain['script'] = rng.choice(['direct', 'early', 'early-mutate'] if plain['media'] != 'unset' else ['direct', 'early'])
         cj = harness_client_args(rq)
         # the drivers are run wherever the harness can form the call; TLC (Expressible) decides which events count
         can = {'raw-wsgi': True, 'raw-asgi': True, 'client-wsgi': cj is not None, 'client-asgi': cj is not None}
@@ -901,6 +946,65 @@ def run(ctx):
 
 
 B = lambda t: list(t.encode('latin-1'))
+
+
+def middleware_stacks(ctx):
+    """Component stacks (2-3 components, dependent and independent mode) in which one component ends the request in
+    process_request (resp.complete) and every component adds to a header in process_response: the response must be
+    the same on the four drivers (which components still run is C03's subject)."""
+    import falcon
+    import falcon.asgi
+    n = 0
+    for size in (2, 3):
+        for stopper in range(size + 1):            # index == size: nobody completes
+            for independent in (False, True):
+                def component(i, asgi):
+                    if asgi:
+                        class C:
+                            async def process_request(self, req, resp):
+                                resp.append_header('X-Audit', 'q%d' % i)
+                                if i == stopper:
+                                    resp.complete = True
+                                    resp.text = 'done by %d' % i
+
+                            async def process_response(self, req, resp, resource, req_succeeded):
+                                resp.append_header('X-Audit', 'r%d' % i)
+                    else:
+                        class C:
+                            def process_request(self, req, resp):
+                                resp.append_header('X-Audit', 'q%d' % i)
+                                if i == stopper:
+                                    resp.complete = True
+                                    resp.text = 'done by %d' % i
+
+                            def process_response(self, req, resp, resource, req_succeeded):
+                                resp.append_header('X-Audit', 'r%d' % i)
+                    return C()
+                apps = {}
+                for iface in IFACES:
+                    asgi = iface.endswith('asgi')
+                    logic = Logic()
+                    mw = [component(i, asgi) for i in range(size)]
+                    app = (falcon.asgi.App if asgi else falcon.App)(middleware=mw, independent_middleware=independent)
+                    app.add_route('/r/{p}', (AsgiRes if asgi else WsgiRes)(logic, 'route'))
+                    apps[iface] = (logic, app)
+                rq = history_request(True)
+                brief = {'origin': 'middleware-stack', 'size': size, 'completes_at': stopper, 'independent': independent}
+                ctx.case(brief, nontrivial=stopper < size, key=digest(brief))
+                obs = observe_all(rq, harness_client_args(rq), {'strip': False, 'keep_blank': True, 'csv': False}, 'echo',
+                                  {i: True for i in IFACES}, None, apps=apps)
+                n += 1
+                base = None
+                for iface in IFACES:
+                    o = obs[iface]
+                    if o['exc'] is not None:
+                        ctx.violation('P:exception', brief, '%s: %s' % (iface, o['exc']))
+                    elif base is None:
+                        base = (iface, o)
+                    elif o['proj'] != base[1]['proj'] or (o['digest'] is None) != (base[1]['digest'] is None):
+                        ctx.violation('P:equal-response', brief, 'middleware stack: %s differs from %s: %s'
+                                      % (iface, base[0], canon([_resp_brief(base[1]), _resp_brief(o)])[:500]))
+    return n
 
 
 def history_request(own):
